@@ -867,6 +867,17 @@ class SymInterp(Interp):
                     return SArr(shape, [rat(0)] * n, dtype=a.dtype)
                 return SArr(shape, [flat[i % len(flat)] for i in range(n)], dtype=a.dtype)
             return resize
+        if name == "linspace":
+            def linspace(start, stop, num=50, endpoint=True, **k):
+                if k:
+                    raise AnalysisAbort(f"np.linspace keyword(s) {sorted(k)}")
+                n = int(self.idx(num))
+                a, b = rat(start), rat(stop)
+                if n == 1:
+                    return SArr((1,), [a])
+                div = (n - 1) if endpoint else n
+                return SArr((n,), [a + (b - a) * i / div for i in range(n)])
+            return linspace
         if name == "isfinite":
             return lambda a: S.elementwise(lambda x: rat(0 if (isinstance(x, Rat) and ({"nan", "inf"} & set(x.symbols()))) else 1), a)
         if name == "reshape":
